@@ -7,6 +7,19 @@ ROOT = os.path.dirname(os.path.dirname(os.path.abspath(__file__)))
 ALL = [f"C{k:02d}" for k in range(1, 21)]
 
 CLAIMED = {
+    "C05": dict(
+        text=("Ingest.tla: TLC checks for ALL bin tables (<=2 chromosomes, length<=3/4, all compositions) x ALL single records with both "
+              "anchors anywhere in -1..length+2 on known/unknown chromosomes x zero/one-based x reflect/drop/none (68k states), and "
+              "all 2-record bags on one chromosome (224k), that the transcribed sanitizer rejects exactly the out-of-chromosome "
+              "records and otherwise yields the pixel of the bins CONTAINING the anchors (division path or search path as selected "
+              "by the inferred bin size), each record once, order-independent; the pinned bounds check is kept and refuted (F3). "
+              "Real runs: bags of records with anchors on every bin edge / next to it / at 0 / at and beyond the end, unknown "
+              "chromosomes, both orientations x options x chunk sizes through sanitize_records+aggregate_records+unordered creation "
+              "and `cooler cload pairs`; bedGraph-2D and COO through the API and `cooler load`; `cooler cload tabix` on pysam-built "
+              "indexes. TLC validates rejection vs acceptance and the exact pixel table."),
+        design_ref="DESIGN.md section 6 C05, section 4.7",
+        note="Trusted: TLC, structural projection. pairix loader not covered (module absent).",
+        technique="TLA+ model checking (TLC) of record sanitising/binning + TLC trace validation of real ingestion", category="model_checking"),
     "C19": dict(
         text=("Region.tla defines the grammar of region strings structurally (name, numerals = digits with commas, optional decimal "
               "part, unit) and the exact denotation of a numeral on DIGIT SEQUENCES (decimal point moved by the unit's exponent; no "
